@@ -285,6 +285,13 @@ func (p *Parser) parseVP8XChunks(buf []byte) error {
 		buf = buf[chunkTotal:]
 	}
 
+	// A still (non-animated) extended file must contain its image chunk: a
+	// VP8X header followed by nothing decodable is a truncated file, not a
+	// file with zero frames.
+	if !isAnim && len(p.frames) == 0 {
+		return ErrTruncated
+	}
+
 	return nil
 }
 
